@@ -5,12 +5,15 @@
   OBLIGATIONS: C10_axes_invertible C10_axes_path_independent C10_axes_is_grid_vector_map
     C10_axes_index_meaning C10_exp_repr_independent C10_exp_index_meaning C10_sample_rescale
     C10_warp_position_repr_independent C10_exp_unrepaired_refuted
+    C10_normalize_flow_is_grid_vector_map C10_denormalize_flow_is_grid_vector_map C10_normalize_flow_invertible
+    C10_normalize_flow_side_length C10_normalize_flow_singleton_axis
 
   `C10_exp_repr_independent` is about `FlowFields.exp` as repaired by the `fix:` commit in /repo
   (the method used to exponentiate the unconverted tensor, see `C10_exp_unrepaired_refuted`).
 -/
 import Deepali.Proofs.FlowRepr
 import Deepali.Proofs.Examples
+import Deepali.Model.Regularizers
 
 set_option linter.unusedSectionVars false
 
@@ -141,6 +144,65 @@ theorem C10_warp_position_repr_independent {g : Grid d K} {n : Fin d → Nat} (h
   simp only [Vec.add, latticePoint, coordAt_affine _ (h2 i), idxScale]
   cases ac <;> simp only [unnormalize, Bool.false_eq_true, if_false, if_true, Nat.cast_one, Nat.cast_ofNat] <;>
     field_simp <;> ring
+
+/-! ### the functional twins `core.flow.normalize_flow` / `denormalize_flow` (grid-index units <-> cube units) -/
+
+/-- the cube representation that goes with an `align_corners` flag. -/
+def cubeOf (ac : Bool) : Axes := if ac then .cubeCorners else .cube
+
+/-- `normalize_flow(data, size=grid.size(), align_corners=ac)` (default side length 2) is the grid's own vector map
+    GRID -> cube(ac) (`Grid.transform_vectors`), on every grid with at least two samples per axis. -/
+theorem C10_normalize_flow_is_grid_vector_map {g : Grid d K} {n : Fin d → Nat} (hn : g.HasSize n) (h2 : ∀ i, 2 ≤ n i)
+    (ac : Bool) (v : Vec d K) :
+    Reg.normalizeFlow ac n (2 : K) v = g.transformVectors .grid (cubeOf ac) v := by
+  funext i
+  have hs : g.sizeTensor i = ((n i : Nat) : K) := hn i
+  have h1 : 1 < n i := h2 i
+  cases ac <;>
+    simp [Reg.normalizeFlow, cubeOf, Grid.transformVectors, Vec.mul, hs, h1] <;> ring
+
+/-- `denormalize_flow(data, size=grid.size(), align_corners=ac)` is the grid's vector map cube(ac) -> GRID. -/
+theorem C10_denormalize_flow_is_grid_vector_map {g : Grid d K} {n : Fin d → Nat} (hn : g.HasSize n) (h2 : ∀ i, 2 ≤ n i)
+    (ac : Bool) (v : Vec d K) :
+    Reg.denormalizeFlow ac n (2 : K) v = g.transformVectors (cubeOf ac) .grid v := by
+  funext i
+  have hs : g.sizeTensor i = ((n i : Nat) : K) := hn i
+  have h1 : 1 < n i := h2 i
+  cases ac <;>
+    simp [Reg.denormalizeFlow, cubeOf, Grid.transformVectors, Vec.mul, hs, h1] <;> ring
+
+/-- the two functions invert each other, for every non-zero side length and both conventions, when every axis has at
+    least two samples. -/
+theorem C10_normalize_flow_invertible {n : Fin d → Nat} (h2 : ∀ i, 2 ≤ n i) (ac : Bool) (side : K) (hs : side ≠ 0)
+    (v : Vec d K) :
+    Reg.denormalizeFlow ac n side (Reg.normalizeFlow ac n side v) = v ∧
+      Reg.normalizeFlow ac n side (Reg.denormalizeFlow ac n side v) = v := by
+  have key : ∀ i, ((n i : Nat) : K) ≠ 0 ∧ ((n i : Nat) : K) - 1 ≠ 0 := by
+    intro i
+    have : (2 : K) ≤ (n i : K) := by exact_mod_cast h2 i
+    constructor
+    · intro e; rw [e] at this; linarith
+    · intro e; linarith
+  constructor <;> funext i <;> obtain ⟨k0, k1⟩ := key i <;> have h1 : 1 < n i := h2 i <;>
+    cases ac <;> by_cases h : side = 1 <;>
+    simp [Reg.denormalizeFlow, Reg.normalizeFlow, h1, h] <;> field_simp
+
+/-- the `side_length` argument is a plain factor: cube vectors of side `s` are `s/2` times the cube vectors of side 2. -/
+theorem C10_normalize_flow_side_length {n : Fin d → Nat} (ac : Bool) (side : K) (v : Vec d K) (i : Fin d) :
+    Reg.normalizeFlow ac n side v i = side / 2 * Reg.normalizeFlow ac n (2 : K) v i := by
+  by_cases h1 : 1 < n i <;> by_cases h : side = 1 <;> cases ac <;>
+    simp [Reg.normalizeFlow, h1, h] <;> ring
+
+/-- the branch the guards above exclude, stated outright: along an axis with at most one sample both functions return
+    zero (`torch.where(size > 1, …, zero)`), i.e. they are NOT the grid's vector map there (which multiplies by `2 / n`). -/
+theorem C10_normalize_flow_singleton_axis {n : Fin d → Nat} (ac : Bool) (side : K) (v : Vec d K) (i : Fin d)
+    (h : n i ≤ 1) : Reg.normalizeFlow ac n side v i = 0 ∧ Reg.denormalizeFlow ac n side v i = 0 := by
+  have h1 : ¬ 1 < n i := by omega
+  constructor <;> simp [Reg.normalizeFlow, Reg.denormalizeFlow, h1]
+
+/-- non-vacuity: a 3x2 grid meets the hypotheses, and the map is not the identity. -/
+example : Reg.normalizeFlow false (fun i : Fin 2 => if i = 0 then 3 else 2) (2 : ℚ) (fun _ => 1) 0 = 2 / 3 := by
+  simp [Reg.normalizeFlow]
 
 /-- the method as it was before the repair is NOT representation independent: on a 1-D grid with
     3 samples, unit spacing, a constant GRID-axes field of 1/2 sample and zero steps it returns the
